@@ -35,6 +35,7 @@ func checkC10(p *Prog, c *Check) {
 	c10NoWriteBeforeRefusal(p, c)
 	c10Membership(p, c)
 	c10CheckTx(p, c)
+	ensureValidRule(p, c, "C10-R6.valid")
 	c10CheckTxInit(p, c, "C10-R5.init")
 	nonceMonotone(p, c, "C10-R2.record")
 	linearSearchRule(p, c, "C10-R4.member", "keyper/shutterevents.BatchConfig.KeyperIndex", "$p0.Keypers")
